@@ -69,6 +69,9 @@ structure UdpEp where
   state : UState := .initial
   id : Tid := {}
   effProtos : List Nat := []
+  /-- what the local port was reserved for (by Bind, or by the Connect / Write that bound the endpoint) -/
+  resProtos : List Nat := []
+  resAddr : Addr := []
   dstPort : Nat := 0
   routeLocal : Addr := []
   routeRemote : Addr := []
@@ -202,9 +205,9 @@ def registerWithStack (w : World) (i : Nat) (e : UdpEp) (netProtos : List Nat) (
     match w1.register netProtos udpProto id1 i with
     | some w2 => (w2, .ok id1)
     | none =>
-      -- `ReleasePort(netProtos, id.LocalAddress, id.LocalPort)` runs whether or not the port was
-      -- reserved by this call
-      ({ w1 with ports := Model.Ports.release w1.ports netProtos udpProto id1.laddr id1.lport }, .error .portInUse)
+      -- the port is released again if this call reserved it
+      ((if e.id.lport == 0 then { w1 with ports := Model.Ports.release w1.ports netProtos udpProto id1.laddr id1.lport } else w1),
+       .error .portInUse)
 
 def udpBind (w : World) (i : Nat) (addr : Addr) (port learnedPort : Nat) : World × Option Err :=
   match w.udp[i]? with
@@ -219,7 +222,8 @@ def udpBind (w : World) (i : Nat) (addr : Addr) (port learnedPort : Nat) : World
       match registerWithStack w i e netProtos { lport := port, laddr := a } learnedPort with
       | (w1, .error err) => (w1, some err)
       | (w1, .ok id) =>
-        (w1.setUdp i { e with id := id, effProtos := netProtos, state := .bound, rcvReady := true }, none)
+        (w1.setUdp i { e with id := id, effProtos := netProtos, resProtos := netProtos, resAddr := id.laddr, state := .bound,
+                              rcvReady := true }, none)
 
 def udpConnect (w : World) (i : Nat) (addr : Addr) (port learnedPort : Nat) : World × Option Err :=
   match w.udp[i]? with
@@ -241,7 +245,9 @@ def udpConnect (w : World) (i : Nat) (addr : Addr) (port learnedPort : Nat) : Wo
         | (w1, .ok id1) =>
           let w2 := if e.id.lport != 0 then w1.unregister e.effProtos udpProto e.id else w1
           (w2.setUdp i { e with id := id1, routeLocal := la, routeRemote := ra, routeProto := fam, dstPort := port,
-                                effProtos := netProtos, state := .connected, rcvReady := true }, none)
+                                effProtos := netProtos, state := .connected, rcvReady := true,
+                                resProtos := (if e.id.lport == 0 then netProtos else e.resProtos),
+                                resAddr := (if e.id.lport == 0 then id1.laddr else e.resAddr) }, none)
 
 def udpRead (w : World) (i : Nat) : World × Except Err Dgram :=
   match w.udp[i]? with
@@ -264,7 +270,7 @@ def udpClose (w : World) (i : Nat) : World :=
   | some e =>
     let w1 := if e.state == .bound || e.state == .connected then
         let w' := w.unregister e.effProtos udpProto e.id
-        { w' with ports := Model.Ports.release w'.ports e.effProtos udpProto e.id.laddr e.id.lport }
+        { w' with ports := Model.Ports.release w'.ports e.resProtos udpProto e.resAddr e.id.lport }
       else w
     w1.setUdp i { e with shutRd := true, shutWr := true, rcvClosed := true, rcvBufSize := 0, rcvList := [], state := .closed }
 
